@@ -151,6 +151,9 @@ def run(ctx):
     rep.rule("C11.R3", "normalising quaternion kernels / non-normalising kinematic equation", 20)
     rep.rule("C11.R4", "q_dot / q_dot_u kernel agreement", 2)
     rep.rule("C11.R5", "mass matrix, kinetic energy and gyroscopic forces integrate the same data", 3)
+    rep.rule("C11.R6", "rod routines never modify the (memoised) output of the interpolation kernels in place: a reported derivative is the same on every call", 30)
+    from . import c26
+    c26.r3_poison(ctx, c26.find_sites(ctx), rule="C11.R6", want_file=lambda rel: rel.startswith("cardillo/rods/"), floor=30)
     model = ctx.model
     ci = model.cls("CosseratRod")
     seen = set()
@@ -321,4 +324,12 @@ MUTANTS = [
          old="            q_dot[nodalDOF_p] = T_SO3_inv_quat(p, normalize=False) @ B_omega_IB", new="            q_dot[nodalDOF_p] = T_SO3_inv_quat(p, normalize=True) @ B_omega_IB", expect=["C11.R3", "C11.R4"]),
 ]
 MUTANTS = [m for m in MUTANTS if not m.get("optional")]
-NEUTRAL = []
+RODB_ = "cardillo/rods/_base.py"
+MUTANTS += [
+    dict(id="c11-r6-seed", canary=True, what="[seeded by sub-agent] rod r_OP_q adds the offset term in place to the memoised centerline Jacobian", file=RODB_,
+         old="        return r_OC_q + np.einsum(\"ijk,j->ik\", A_IB_q, B_r_CP)\n\n    def v_P(", new="        r_OC_q += np.einsum(\"ijk,j->ik\", A_IB_q, B_r_CP)\n        return r_OC_q\n\n    def v_P(", expect="C11.R6"),
+]
+NEUTRAL = [
+    dict(id="c11-n-r6", what="rod r_OP_q accumulates into a private copy", file=RODB_,
+         old="        return r_OC_q + np.einsum(\"ijk,j->ik\", A_IB_q, B_r_CP)\n\n    def v_P(", new="        r_OP_q = r_OC_q.copy()\n        r_OP_q += np.einsum(\"ijk,j->ik\", A_IB_q, B_r_CP)\n        return r_OP_q\n\n    def v_P("),
+]
